@@ -30,6 +30,8 @@ def _opts(rng, typed, how):
     if how == "callable":
         o.captured_ints = ("CAP_A", "CAP_B")
         o.helpers = tuple((n, k) for n, (k, _) in HELPERS.items())
+        # lambda parameters spelled like the helpers' own parameters: arguments are bound in parallel, not one by one
+        o.extra_binder_names = ("a", "b", "v", "a", "b")
         o.rec_ctor = True
     else:
         o.rec_ctor = True  # records made upstream by constructors are read by attribute; strings make none themselves
